@@ -26,8 +26,10 @@ WordSeqs == UNION {[1..m -> 1..3] : m \in 1..MaxWords}
 \* span: 0 = no inline box, otherwise the inline box wraps words 2..span, with `pad` em of `edge` (padding, margin or
 \*       border) on each side
 \* last: text-align-last ("auto" or "right"); ow: overflow-wrap: break-word
+\* gk, gc: an inline box without padding starts INSIDE word gk, after its first gc characters (and ends with the word): the
+\*       boundary of an inline box is not a break opportunity, so the lines are those of the plain paragraph
 Base == [words |-> <<1>>, W |-> 1, align |-> "left", indent |-> 0, ws |-> "normal", nl |-> 0, span |-> 0, pad |-> 0,
-         edge |-> "padding", last |-> "auto", ow |-> FALSE]
+         edge |-> "padding", last |-> "auto", ow |-> FALSE, gk |-> 0, gc |-> 0]
 \* (Init enumerates the four families directly; building their union as one set is slow in TLC)
 ScnInit(v) ==
   \/ \E w \in WordSeqs, cw \in 1..MaxW, a \in Aligns, ind \in {0, 2} :
@@ -38,6 +40,10 @@ ScnInit(v) ==
         v = [Base EXCEPT !.words = w, !.W = cw, !.align = a, !.span = sp, !.pad = 1, !.edge = e]
   \/ \E w \in WordSeqs, cw \in 1..MaxW, sp \in {0} \cup 2..MaxWords :
         v = [Base EXCEPT !.words = w, !.W = cw, !.span = sp, !.ow = TRUE]
+  \/ \E w \in {x \in WordSeqs : Len(x) >= 2}, cw \in 2..MaxW, ws \in {"normal", "pre-line"}, nl \in 0..1 :
+        \E k \in 2..Len(w) : \E c \in 1..(w[k] - 1) :
+        /\ (ws = "normal") = (nl = 0)
+        /\ v = [Base EXCEPT !.words = w, !.W = cw, !.ws = ws, !.nl = nl, !.gk = k, !.gc = c]
 
 N(s) == Len(s.words)
 HasSpan(s) == s.span >= 2 /\ s.span <= N(s)
